@@ -164,6 +164,20 @@ def run_fa(case):
                     if t[0] == p and t[1] == a:
                         t[2] = q
                 obj.delta[p, a] = q
+            elif what in ("redirect", "drop_transition") and it.kind == "nfa":
+                # an existing transition gets another target (the number of entries and of targets stays the same) or is removed
+                own = [t for t in spec["d"] if t[0] == p] or list(spec["d"])
+                if not own:
+                    continue
+                t = own[step["c"] % len(own)]
+                if what == "redirect" and [t[0], t[1], q] in spec["d"]:
+                    continue
+                obj.delta[t[0], t[1]].discard(t[2])
+                if what == "redirect":
+                    obj.delta[t[0], t[1]].add(q)
+                    t[2] = q
+                else:
+                    spec["d"].remove(t)
             elif what == "add_transition" and it.kind == "nfa":
                 labels = S + [spec["eps"]]
                 a = labels[step["c"] % len(labels)]
@@ -239,7 +253,7 @@ def fa_programs(draw, tier, focus="accept"):
             choice = derive_names if focus == "accept" else (["minimize", "quotient", "hopcroft"] if focus == "minimize" else ["complement", "remove_unreachable", "reverse", "minimize"])
             steps.append({"op": "derive", "i": i, "what": draw(st.sampled_from(choice))})
         elif k <= 8:
-            steps.append({"op": "mutate", "i": i, "what": draw(st.sampled_from(["flip_final", "redirect", "add_transition", "add_transition", "make_total_in_place", "set_initial", "replace_final_set"])),
+            steps.append({"op": "mutate", "i": i, "what": draw(st.sampled_from(["flip_final", "redirect", "redirect", "add_transition", "add_transition", "drop_transition", "make_total_in_place", "set_initial", "replace_final_set"])),
                           "a": draw(st.integers(0, 5)), "b": draw(st.integers(0, 5)), "c": draw(st.integers(0, 3))})
         else:
             steps.append({"op": "new", "spec": draw(G.dfa_specs(max_states=3, sigma=sigma))})
